@@ -170,7 +170,7 @@ class Ctx:
         for src, dst in (files or {}).items():
             shutil.copy(src, os.path.join(d, dst))
         w = str(workers if workers else min(NCPU, 16))
-        cmd = ["java", "-XX:+UseParallelGC", "-Xss64m"]
+        cmd = ["java", "-XX:+UseParallelGC", "-Xss64m", "-Djava.io.tmpdir=%s" % d]
         cmd += ["-Xmx%s" % (heap or ("12g" if self.tier == "thorough" else "6g"))]
         cmd += list(jvm)
         cmd += ["-cp", TLA_CP, "tlc2.TLC", "-metadir", os.path.join(d, "meta"), "-workers", w,
@@ -250,6 +250,10 @@ class Ctx:
         env["VERIF_SEED"] = str(self.seed)
         env["VERIF_TIER"] = self.tier
         env["VERIF_SCRATCH"] = self.scratch
+        # temporary files of the harness binaries, of file.d's own helpers and of the Go tool go where the scratch directory goes
+        tmp = os.path.join(self.scratch, "tmp")
+        os.makedirs(tmp, exist_ok=True)
+        env["TMPDIR"] = tmp
         if extra:
             env.update({k: str(v) for k, v in extra.items()})
         return env
